@@ -4,6 +4,7 @@ import NgoVerif.Meta.M6
 import NgoVerif.Proofs.C08sem
 import NgoVerif.Proofs.StrongEq
 import NgoVerif.Proofs.C08impl
+import NgoVerif.Proofs.C08trans
 import NgoVerif.Proofs.C08anon
 import NgoVerif.Proofs.C08anonStm
 import NgoVerif.Proofs.C08anonObj
@@ -182,6 +183,21 @@ theorem C08_remove_implied_typed (P : Sem.Params) (hdn : DnegOld P) (R : Rewrite
     R.pre R.post).stable]
   exact remove_implied_of_check P hdn R h T
 
+
+open Proofs.C08impl Proofs.C08trans in
+/-- **… also when the implication runs through a chain of predicates** (`transitive_closure` of cleanup): `impliedCheckT fuel`
+follows `p ⟸ r ⟸ … ⟸ q` to depth `fuel`, composing the argument maps (position `i` of the implying atom, or a constant) along
+the way; stable models and the least model below one are supported interpretations, in which the chain can be followed -/
+theorem C08_remove_implied_typed_chain (P : Sem.Params) (hdn : DnegOld P) (fuel : Nat) (R : Rewrite) (bb : List BLit)
+    (hsame : sameLits bb (R.qLit :: R.body) = true) (h : impliedCheckT fuel R = true) (T : Sem.Interp) :
+    Sem.Stable (Sem.stdParams P) (R.pre ++ .rule R.line R.col R.head bb :: R.post) T ↔
+      Sem.Stable (Sem.stdParams P) R.res T := by
+  rw [(Proofs.C10stm.models_swap P (.rule R.line R.col R.head bb) (.rule R.line R.col R.head (R.qLit :: R.body))
+    (fun H T' => Proofs.C10multi.stmSat_same_body P R.line R.col R.line R.col R.head bb (R.qLit :: R.body)
+      (sameLits_sound _ _ hsame) H T')
+    R.pre R.post).stable]
+  exact remove_implied_of_checkT P hdn fuel R h T
+
 open Proofs.C08impl in
 /-- the executable check implies the semantic side condition -/
 theorem C08_implied_check_sound (P : Sem.Params) (R : Rewrite) (h : impliedCheck R = true) : Ok R.src ∧ Implied P R :=
@@ -313,6 +329,27 @@ example (P : Params) (ctx : Prog) :
         ([] ++ ([.sym (.num 1), .var "Y"], A.cond) :: []) none) :: []) :: []) :=
   (C08_remove_weaker_copy_in_condition P A 1 1 hd pre [] _ check.2 ctx []).2 .pos 1 1 _ none .sum [] [] _ check.1
 end C08condEx
+
+
+/-! non-vacuity of the chain: `b(X) :- d(X).  a(X) :- b(X).  c(X) :- a(X), d(X).` - `d(X)` follows from `a(X)` through `b(X)` -/
+namespace C08chainEx
+open Proofs.C08impl Proofs.C08trans Sem
+def atomL (n : String) (vs : List String) : BLit := .lit (.pos, .sym (.fn n (vs.map Term.var) false))
+def headL (n : String) (vs : List String) : Head := .lit (.pos, .sym (.fn n (vs.map Term.var) false))
+def R : Rewrite :=
+  { pre := [.rule 1 1 (headL "b" ["X"]) [atomL "d" ["X"]], .rule 2 1 (headL "a" ["X"]) [atomL "b" ["X"]]], post := [],
+    line := 3, col := 1, head := headL "c" ["X"], body := [atomL "a" ["X"]], pn := "a", pargs := [.var "X"], qn := "d", qargs := [.var "X"] }
+set_option maxRecDepth 8000 in
+theorem check : impliedCheckT 2 R = true := by
+  simp [impliedCheckT, entCheck, stmYields, litYields, mapOfArgs, argSrc, pullback, pullArg, compose, composeArg, mapEqb, ArgSrc.eqb,
+    R, Rewrite.src, Rewrite.pLit, Rewrite.qLit, okStm, plainHead, plainBody, plainBLit, plainLit, headL, atomL, qVarsOk, blitMem, blitEqb,
+    litEqb, atomEqb, termsEqb, termEqb, stdHeadGlobals, bodyGlobals, blitGlobals, litVars, litTerms, Atom.terms, Term.vars,
+    List.findIdx?_cons]
+example (P : Params) (hdn : DnegOld P) (T : Interp) :
+    Stable (stdParams P) (R.pre ++ .rule 3 1 (headL "c" ["X"]) [atomL "a" ["X"], atomL "d" ["X"]] :: R.post) T ↔ Stable (stdParams P) R.res T :=
+  C08_remove_implied_typed_chain P hdn 2 R [atomL "a" ["X"], atomL "d" ["X"]]
+    (by simp [sameLits, R, Rewrite.qLit, atomL, blitMem, blitEqb, litEqb, atomEqb, termsEqb, termEqb]) check T
+end C08chainEx
 
 /-- `api.optimize` (read from the source on every run) constructs this pass with the current program and the caller's
 own declaration lists, under the parameter names the class declares, and replaces the current program by its result -/
